@@ -160,7 +160,7 @@ func drawFrame1(t *rapid.T, label string, genuine *[]*mocrelay.Event) frame {
 			base = (*genuine)[rapid.IntRange(0, len(*genuine)-1).Draw(t, label+"which")]
 		}
 		x := gen.CloneEvent(base)
-		how := rapid.SampledFrom([]string{"content", "created_at", "kind", "tag", "sig-digit", "id-digit", "pubkey", "sig-of-other"}).Draw(t, label+"how")
+		how := rapid.SampledFrom([]string{"content", "created_at", "kind", "tag", "sig-digit", "id-digit", "pubkey", "sig-of-other", "pubkey-off-curve", "sig-out-of-range"}).Draw(t, label+"how")
 		switch how {
 		case "content":
 			x.Content += "!"
@@ -180,6 +180,16 @@ func drawFrame1(t *rapid.T, label string, genuine *[]*mocrelay.Event) frame {
 					x.Pubkey = kk.Pub
 					break
 				}
+			}
+		case "pubkey-off-curve":
+			// well-formed and with the right id, but the pubkey is no curve point
+			x.Pubkey = rapid.SampledFrom(gen.OffCurvePubkeys).Draw(t, label+"off")
+			x.ID = gen.ComputeID(x)
+		case "sig-out-of-range":
+			if rapid.Bool().Draw(t, label+"rs") {
+				x.Sig = gen.FieldPrimeHex + x.Sig[64:]
+			} else {
+				x.Sig = x.Sig[:64] + gen.GroupOrderHex
 			}
 		case "sig-of-other":
 			o := gen.CloneEvent(base)
